@@ -7,12 +7,19 @@ def c14_stats(cases, model):
     ops, lens = collections.Counter(), []
     notif = collections.Counter()
     expiries = changed = unchanged = 0
+    room_cases = stale = stray = pending_across = 0
     for c in cases:
         lens.append(len(c["ops"]))
+        if c["ops"] and c["ops"][0][:1] == "r" and c["ops"][0].split(" ", 1)[0] in _ROOM_OPS:
+            room_cases += 1
+            if _ttl_pending_across_move(c):
+                pending_across += 1
         for o, i in zip(c["ops"], c.get("impl") or []):
             kind = o.split(" ", 1)[0]
             ops[kind] += 1
             toks = i.split(" ")
+            if kind in _ROOM_OPS and any(t.startswith("Z=") and t != "Z=-" for t in toks):
+                stale += 1
             msgs = [t for t in toks if t.startswith("L")]
             for t in msgs:
                 for m in t.split(":", 1)[1].split(";"):
@@ -26,13 +33,41 @@ def c14_stats(cases, model):
                     unchanged += 1
     return dict(verdicts=_verdict_stats(cases, model), ops=dict(ops), notifications=dict(notif),
                 advances_with_expiry=expiries, sets_effective=changed, sets_without_effect=unchanged,
+                room_level_cases=room_cases, room_cases_ttl_pending_across_a_move=pending_across,
+                steps_with_listener_on_closed_room=stale,
                 max_case_len=max(lens or [0]), mean_case_len=round(sum(lens) / max(1, len(lens)), 1))
+
+
+_ROOM_OPS = ("rjoin", "rleave", "rclose", "rset", "rrm", "rbset", "rbrm", "rdel", "radv", "rget")
+
+
+def _ttl_pending_across_move(c):
+    """Room level: a positive ttl was requested, then some session left / switched / closed / the room was
+    deleted, and only afterwards time passed."""
+    armed = moved = False
+    joined = set()
+    for o in c["ops"]:
+        f = o.split(" ")
+        if f[0] in ("rset", "rbset") and len(f) == 5 and f[4].lstrip("-").isdigit() and int(f[4]) > 0:
+            armed = True
+        elif f[0] == "rjoin" and len(f) == 3:
+            if armed and f[1] in joined:
+                moved = True
+            joined.add(f[1])
+        elif f[0] in ("rleave", "rclose", "rdel") and armed:
+            moved = True
+        elif f[0] == "radv" and moved and len(f) == 2 and f[1].isdigit() and int(f[1]) > 0:
+            return True
+    return False
 
 
 def c14_nontrivial(c, ms):
     """A virtual-time case in which a listener saw an expiry, a `late` case (callback behind another
     call), or a concurrent case whose listeners received something."""
     impl = c.get("impl") or []
+    if c["ops"] and c["ops"][0].split(" ", 1)[0] in _ROOM_OPS:
+        # room level: a ttl was pending across a leave / switch / close / delete and an expiry was delivered
+        return _ttl_pending_across_move(c) and any(o.startswith("radv") and " L" in i for o, i in zip(c["ops"], impl))
     for o, i in zip(c["ops"], impl):
         if o.startswith("adv") and " L" in i:
             return True
@@ -53,7 +88,11 @@ CONFIG = dict(
         "C14_spec_overdue_iff", "C14_ttl_async", "C14_expiry_not_before_deadline",
         "C14_callback_is_expiry_or_nothing",
         "C14_original_clear_still_expires", "C14_original_aba_expires",
-        "C14_late_callback_needs_identity_check", "C14_original_cas_unchanged_notifies"]],
+        "C14_late_callback_needs_identity_check", "C14_original_cas_unchanged_notifies",
+        "C14_listener_call_sites", "C14_membership_paths_register", "C14_last_leave_closes_room",
+        "C14_listeners_are_members", "C14_listeners_are_members_partial",
+        "C14_room_replica_converges", "C14_room_replica_converges_partial",
+        "C14_room_stores_are_store_runs", "C14_last_leave_must_unregister", "C14_room_delete_keeps_listener"]],
     generated=["Transient"],
     harness=dict(pkg="signaling", test="TestVerifC14", go="go1.26"),
     stats=c14_stats,
@@ -66,22 +105,40 @@ CONFIG = dict(
          "by the spec. (2) real clock `late` cases: the expiry callback has fired but runs behind another call "
          "(harness holds t.mu, orders the two waiters through the mutex queue). (3) `conc` cases: two writer "
          "goroutines and a listener leaving/re-joining with its own mutex held, judged by the spec only (replicas of "
-         "the permanent listeners = final data; watchdog for hangs). Non-trivial: a listener saw an expiry / a late "
-         "callback was realised / concurrent listeners received messages; distinct = distinct op lists",
+         "the permanent listeners = final data; watchdog for hangs). (4) room level: a real Hub with BackendServer, "
+         "in-memory Nextcloud and 4 real ClientSessions in a synctest bubble; witness histories, scripted openings "
+         "(ttls armed in a room, then every member leaves / switches room / is closed / the room is deleted, "
+         "re-joins, the same keys set in the rooms of now, the old deadlines pass) with random continuation, and "
+         "random histories over join / leave / close / client set+remove / bus `transient` request / room delete "
+         "(dedicated cases) / time; per step the outcome, every session's transient messages, its room, every "
+         "room's data, timer keys and registered listeners, and the listeners left on Room objects the hub has "
+         "forgotten are compared with the model; the spec judges every session's replica against the data of the "
+         "room it is in. Non-trivial: a listener saw an expiry / a late callback was realised / concurrent "
+         "listeners received messages / (room level) a ttl was pending across a move and an expiry was delivered; "
+         "distinct = distinct op lists",
     trusted_base=["testing/synctest of go1.26 (virtual clock for the real time.AfterFunc timers); the runtime fires "
                   "timers with distinct deadlines in deadline order (the generator never makes two deadlines coincide)",
                   "reflect.DeepEqual on the value kinds used by the harness is equality of the value tokens",
                   "sync.Mutex queues waiters FIFO and its state word is `waiters << 3 | flags` (used only by the `late` "
                   "choreography of the harness)",
                   "ClientSession.SendMessage renders or queues the message it is given synchronously (the `initial` "
-                  "message aliases the live map; a session that only queues it for a later resume is not modelled)"],
+                  "message aliases the live map; a session that only queues it for a later resume is not modelled)",
+                  "room level: sessions are built with NewClientSession and have no connection (what they are sent is "
+                  "read from pendingClientMessages at the quiescence point of each step); Hub.processRoom / "
+                  "processTransientMsg are called the way the read loop of a connection calls them"],
     assumptions=["one Op of the model = one exported method call or one run of the expiry callback; justified by the "
                  "extracted facts C14_atomic_ops / C14_listener_lock_is_leaf (every method is a single critical section; "
                  "senders are reached only from inside the store mutex), not by a proof about the Go memory model",
                  "RemoveListener linearises at its own (listener-set) mutex: a listener may still receive the one "
                  "notification whose delivery had begun before it was removed",
                  "two timers with the very same deadline may run in either order (covered by the theorems, which hold "
-                 "for every order of callbacks; not exercised by the harness)"],
+                 "for every order of callbacks; not exercised by the harness)",
+                 "room level: one Op = one message of a session / one request of the backend processed to quiescence; "
+                 "a join or leave racing with another goroutine's use of the same session is not modelled. The "
+                 "spec-level room is the set of sessions in it, its data exists while it has a session",
+                 "room level, open finding C14-room-delete-keeps-listeners: the listener-set theorems for the "
+                 "current source exclude histories in which the backend deletes a room (`…_partial`); the full "
+                 "statements are proved for every source that also unregisters there"],
 )
 
 MANIFEST = dict(
@@ -95,14 +152,24 @@ MANIFEST = dict(
          "removes exactly what is past its deadline (quiescent schedules), and for callbacks delayed behind other "
          "calls a value disappears only through the expiry of the request that still governs it, at or after its "
          "deadline. Proved counter-examples show that the pinned original violated this (ttl cleared / ABA / "
-         "compare-and-set notification) and that the identity check in the callback is necessary. Tied to the code by "
-         "extraction (the repaired places, single critical sections, leaf listener lock, room/hub wiring) and by a "
-         "differential run of the real TransientData under virtual time, plus real-clock late-callback and "
-         "goroutine cases.",
+         "compare-and-set notification) and that the identity check in the callback is necessary. The embedding is "
+         "modelled too (room objects with one store each, sessions, the hub's room table; closed room objects keep "
+         "their armed timers): for every sequence of joins, leaves, room switches, session closes, client and bus "
+         "requests and passages of time the listener set of every room object's store is exactly the set of "
+         "sessions in that room object (none for a closed one), every session's replica is the data of the room it "
+         "is in, and every room's store is a run of store operations to which the store theorems apply — for the "
+         "current source on histories without a room deletion by the backend (open finding, proved counter-example), "
+         "in full for every source that unregisters there as well. Tied to the code by extraction (the repaired "
+         "places, single critical sections, leaf listener lock, room/hub wiring, every control-flow path of "
+         "Room.AddSession / RemoveSession / Close with its register / unregister events, all call sites of "
+         "AddListener / RemoveListener) and by a differential run of the real TransientData under virtual time, "
+         "real-clock late-callback and goroutine cases, and a real hub with rooms and sessions under virtual time.",
     note="Trusted: Lean kernel, extractor, harness/comparison, testing/synctest, reflect.DeepEqual = token equality. "
          "Atomicity of whole calls rests on extracted lock structure, not on a proof. Found and repaired in /repo: "
          "577dda2 (ttl cleared / replaced still expires, ABA), 48f1c34 (compare-and-set to the stored value notified), "
-         "001c654 (RemoveListener vs. notification lock-order deadlock, reported by the C10 builder).",
+         "001c654 (RemoveListener vs. notification lock-order deadlock, reported by the C10 builder). Open: after "
+         "the backend deletes a room its sessions stay listeners of the deleted room's store "
+         "(C14-room-delete-keeps-listeners).",
     technique="Lean 4 proof (inductive invariant relating timers, timer map and ideal deadlines; simulation of every "
               "model step by spec events; replica invariant) + regenerated facts + differential correspondence under "
               "virtual time (go1.26 testing/synctest) + spec judge on the implementation's trace",
